@@ -116,5 +116,5 @@ Definition Known_C06 (gv : bool) (s : bytes) : bool :=
 
 (* the parser's recursion is considered to overflow a thread's stack beyond this many nested activations
    (8 MiB main thread, a few hundred bytes per activation; measured: aborts between 10000 and 20000) *)
-Definition deep_threshold : nat := 5000.
-Definition Known_deep (gv : bool) (s : bytes) : bool := Nat.ltb deep_threshold (stack_used gv s).
+Definition deep_threshold : N := 5000.
+Definition Known_deep (gv : bool) (s : bytes) : bool := N.ltb deep_threshold (stack_used gv s).
